@@ -186,6 +186,9 @@ def build(tier="quick", seed=0):
     special_values(b)
     double_factorial(b)
     sqrt_neg(b)
+    interpreted_table(b)
+    b.replayer("TidalPy/radial_solver/numerical/initial/functions.py::*", _replay_itable)
+    b.replayer(f"{FPY}::_sqrt_neg_python::*", _replay_sqrt_neg)
     b.assume("'within a few ulp for every finite argument' is a statement about rounding error and cannot be expressed with machine arithmetic treated as mathematical: NOT decided, NOT claimed")
     b.assume("axioms: sqrt(x)^2 = x >= 0; frexp(v) = (m, e) with v = m 2^e; ldexp(m, k) = m 2^k; 2^(a+b) = 2^a 2^b; exp(a+b) = exp(a) exp(b) and exp(k ln2) = 2^k (one instance); log1p(u) = ln(1+u); ln(q^2) = 2 ln q, ln(2^m q) = m ln2 + ln q; the literal LOGE2 denotes ln 2; tgamma(n+1) = n!")
     b.assume("isinf / isnan are false and isfinite true on the real-semantics paths; the special values are covered separately by exhaustive concrete execution of the translated source")
@@ -426,6 +429,45 @@ def _replay_df(ob, res):
     return rec
 
 
+def interpreted_table(b):
+    """the interpreted (2l+1)!! table of radial_solver/numerical/initial/functions.py (the counterpart of the compiled double-factorial table): the module-level
+    statements that build it are extracted verbatim and executed (numpy / scipy as in the package), every entry compared with the exact integer"""
+    FT_ = "TidalPy/radial_solver/numerical/initial/functions.py"
+    key = f"{FT_}::l2p1_double_factorials"
+    try:
+        src = source(FT_)
+    except ExtractError as e:
+        b.subset_exits.append(str(e))
+        return
+    stmts = [st for st in src.tree.body if not isinstance(st, (ast.FunctionDef, ast.ClassDef, ast.Import, ast.ImportFrom)) and "l2p1_double_factorials" in ast.unparse(st)]
+    if not stmts:
+        b.subset_exits.append(f"{key}: table construction not found")
+        return
+    b.functions[key] = dict(function=key, line=stmts[0].lineno, note="module-level statements building the table, executed concretely", dropped=["the rest of the module"])
+    try:
+        import numpy as np
+        from scipy.special import gamma
+    except Exception as e:
+        b.bounded.append(dict(name="interpreted (2l+1)!! table", bound="not run", result=f"numpy / scipy unavailable in the tooling interpreter: {e}", counted_as_proved=False))
+        return
+    ns = {"np": np, "gamma": gamma}
+    try:
+        exec(compile(ast.Module(body=stmts, type_ignores=[]), "table", "exec"), ns)
+        table = list(ns["l2p1_double_factorials"])
+    except Exception as e:
+        b.subset_exits.append(f"{key}: cannot execute the table construction ({type(e).__name__}: {e})")
+        return
+    from fractions import Fraction
+    exact = 1
+    for l_ in range(len(table)):
+        exact *= (2 * l_ + 1)
+        got = Fraction(float(table[l_]))
+        rel = abs(got - exact) / exact
+        ground(b, f"{key}::table[l={l_}]", key, f"table entry l = {l_} equals (2l+1)!! = {exact} to 1e-13 relative (a few ulp)", rel <= Fraction(1, 10 ** 13),
+               detail=f"entry {float(table[l_])!r}, exact {exact}", refuted_model=dict(l=l_, entry=repr(float(table[l_])), exact=str(exact)) if rel > Fraction(1, 10 ** 13) else None)
+    ground(b, f"{key}::length", key, "the table covers l = 0..24 (read at order_l and order_l + 1)", len(table) >= 25, detail=f"{len(table)} entries")
+
+
 def sqrt_neg(b):
     """interpreted sqrt_neg (complex branch) == principal square root: result^2 == z, Re >= 0"""
     from tpv.symex import _sh_real, _sh_imag, _sh_sign
@@ -438,3 +480,88 @@ def sqrt_neg(b):
             sq = v * v
             return sp.And(sp.Eq(sq.re, zr), sp.Eq(sq.im, zi), sp.Ge(v.re, 0), sp.Implies(sp.Eq(v.re, 0), sp.Ge(v.im, 0)))
         ensure(b, fn, "principal_square_root", paths, g, pre, clause="ensures sqrt_neg(z)^2 == z with Re >= 0 (same principal value as the compiled csqrt contract)")
+    # real branch (is_real=True, the one the interpreted radial solver calls): sqrt(x) for x > 0, i sqrt|x| for x < 0, 0 at 0
+    xr = R("x_real")
+    fn, ex, paths = run_fn(b, FPY, "_sqrt_neg_python", dict(z=xr, is_real=True), [], globals_env=dict(np=npx), xcheck=False)
+    if paths:
+        def g2(p):
+            v = Cx.of(p.value)
+            sq = v * v
+            return sp.And(sp.Eq(sq.re, xr), sp.Eq(sq.im, 0), sp.Ge(v.re, 0), sp.Ge(v.im, 0))
+        ensure(b, fn, "principal_square_root_of_a_real", paths, g2, [], clause="ensures (is_real=True) sqrt_neg(x)^2 == x with Re >= 0, Im >= 0 for every real x")
+    # array arguments: the result is, element by element, the scalar result (two-element arrays of independent symbols; numpy object semantics)
+    from tpv.symex import NdArr
+    x1, x2 = R("x_first"), R("x_second")
+    fn, ex, paths = run_fn(b, FPY, "_sqrt_neg_python", dict(z=NdArr([x1, x2]), is_real=True), [], globals_env=dict(np=npx), xcheck=False)
+    if paths:
+        def g3(p):
+            if not isinstance(p.value, (list, NdArr)) or len(p.value) != 2:
+                return sp.false
+            out = []
+            for v_, x_ in zip(p.value, (x1, x2)):
+                v_ = Cx.of(v_)
+                sq = v_ * v_
+                out += [sp.Eq(sq.re, x_), sp.Eq(sq.im, 0), sp.Ge(v_.re, 0), sp.Ge(v_.im, 0)]
+            return sp.And(*out)
+        ensure(b, fn, "array_is_elementwise[real]", paths, g3, [], clause="ensures (is_real=True) an array argument gives, element by element, the principal square root of that element (mixed signs included)")
+    z1, z2 = Cx(R("z1_re"), R("z1_im")), Cx(R("z2_re"), R("z2_im"))
+    prez = [sp.Gt(z1.abs2(), 0), sp.Gt(z2.abs2(), 0)]
+    fn, ex, paths = run_fn(b, FPY, "_sqrt_neg_python", dict(z=NdArr([z1, z2]), is_real=False), prez, globals_env=dict(np=npx), xcheck=False, opts=dict(max_paths=4096))
+    if paths:
+        # one obligation per element and path, with only the hypotheses that mention that element (fewer hypotheses = a stronger statement, and a much smaller query)
+        for i_, p in enumerate(paths):
+            if p.outcome != "return":
+                continue
+            ok_shape = isinstance(p.value, (list, NdArr)) and len(p.value) == 2
+            if not ok_shape:
+                ground(b, f"{fn.key}::ensures:array_is_elementwise[complex]@path{i_}", fn.key, "array in, array of the same length out", False, detail=str(type(p.value)))
+                continue
+            for k_, (v_, z_) in enumerate(zip(p.value, (z1, z2))):
+                v_ = Cx.of(v_)
+                sq = v_ * v_
+                mine = {z_.re, z_.im}
+                other = {z1.re, z1.im, z2.re, z2.im} - mine
+                hy = [h for h in (prez + p.hyps) if not (getattr(h, "free_symbols", set()) & other)]
+                b.add(Obligation(oid=f"{fn.key}::ensures:array_is_elementwise[complex;element{k_}]@path{i_}", fn=fn.key,
+                                 clause="ensures (is_real=False) an array argument gives, element by element, the principal square root of that element",
+                                 goal=sp.And(sp.Eq(sq.re, z_.re), sp.Eq(sq.im, z_.im), sp.Ge(v_.re, 0)), hyps=hy))
+
+
+def _replay_itable(ob, res):
+    from tpv import native
+    out = native.run(dict(code="import sys, io\nsys.stdin = io.StringIO('n\\n')\nfrom TidalPy.radial_solver.numerical.initial.functions import l2p1_double_factorials as t\nresult = [float(x) for x in t]"), timeout=600)
+    rec = dict(replayed=True, native=out)
+    try:
+        exact, bad = 1, []
+        for l_, v in enumerate(out["result"]):
+            exact *= (2 * l_ + 1)
+            if abs(v - exact) > 1e-12 * exact:
+                bad.append((l_, v, exact))
+        rec["confirmed"] = bool(bad)
+        rec["detail"] = str(bad[:3])
+    except Exception:
+        rec["confirmed"] = False
+    return rec
+
+
+def _replay_sqrt_neg(ob, res):
+    from tpv import native
+    code = r'''
+import numpy as np, cmath
+from TidalPy.utilities.math.special import sqrt_neg
+bad = []
+xs = np.asarray([4.0, -9.0, 2.25, -1e-3, 1e6])
+arr = np.asarray(sqrt_neg(xs, True))
+for x, a in zip(xs, arr):
+    s = complex(sqrt_neg(float(x), True)); ref = cmath.sqrt(complex(x, 0.0))
+    if abs(s - ref) > 1e-12 * abs(ref): bad.append(["scalar real", float(x), [s.real, s.imag]])
+    if abs(complex(a) - ref) > 1e-12 * abs(ref): bad.append(["array real", float(x), [complex(a).real, complex(a).imag]])
+for z in (3+4j, -3+4j, -3-4j, 3-4j, 2j, -2j, 5e-3j, -7.0+0j):
+    s = complex(sqrt_neg(z, False)); ref = cmath.sqrt(z)
+    if abs(s - ref) > 1e-12 * abs(ref): bad.append(["scalar complex", [z.real, z.imag], [s.real, s.imag]])
+result = dict(bad=bad[:6], n=len(bad))
+'''
+    out = native.run(dict(code=code), timeout=600)
+    rec = dict(replayed=True, native=out)
+    rec["confirmed"] = bool("result" not in out or out["result"]["n"])
+    return rec
